@@ -82,12 +82,12 @@ func (r *rot) HmacSalt() []byte          { return r.salt }
 func (r *rot) HmacInfo() []byte          { return r.info }
 
 type ewi struct {
-	id     string
-	A      string `class:"sensitive"`
-	B      []byte `class:"secret"`
-	C      string
-	M      map[string]interface{}
-	salt   []byte
+	id   string
+	A    string `class:"sensitive"`
+	B    []byte `class:"secret"`
+	C    string
+	M    map[string]interface{}
+	salt []byte
 }
 
 func (e *ewi) EventId() string  { return e.id }
